@@ -2,6 +2,7 @@ package main
 
 import (
 	"fmt"
+	"os"
 	"strconv"
 	"strings"
 
@@ -133,7 +134,7 @@ func genDirect(r *rng.R, tier string, clones bool) corr.Case {
 			}
 		}
 		if r.Chance(1, 12) {
-			lines = append(lines, fmt.Sprintf("owned %d", h), fmt.Sprintf("cons %d", h))
+			lines = append(lines, fmt.Sprintf("owned %d", h), fmt.Sprintf("cons %d", h), fmt.Sprintf("free %d", h))
 		}
 	}
 	for j := 0; j < handles; j++ {
@@ -195,7 +196,10 @@ func genGrowShrink(r *rng.R, tier string) corr.Case {
 			lines = append(lines, scanLine(0, r.Pick("ascgt", "desclt", "ascge", "descle"), r.Range(-1, K+1), 0, "all"))
 		}
 	}
-	lines = append(lines, "len 0", "scan 0 asc - - all", "min 0", "max 0", "del 0 1", "owned 0", "cons 0")
+	lines = append(lines, "len 0", "scan 0 asc - - all", "min 0", "max 0", "del 0 1", "owned 0", "cons 0", "free 0")
+	if r.Chance(1, 3) {
+		lines = append(lines, fmt.Sprintf("clear 0 %d", r.Intn(2)), "free 0", "len 0", "chk 0")
+	}
 	if withClone {
 		lines = append(lines, "chk 1", "len 1", "scan 1 asc - - all", "scan 1 desc - - all")
 	}
@@ -248,7 +252,15 @@ func genWrapper(r *rng.R, tier string) corr.Case {
 			if r.Chance(1, 40) {
 				n = -r.Range(1, 3)
 			}
-			lines = append(lines, fmt.Sprintf("wscan %s %d %s %d", r.Pick("gte", "gt", "lte", "lt"), r.Range(-2, K+2), randFilter(r, K), n))
+			ns := strconv.Itoa(n)
+			if r.Chance(1, 10) {
+				// "no limit" idioms and other large limits: the result is still the few matching items
+				ns = r.Pick("4398046511105", "9223372036854775806", "9223372036854775807", "9223372036854775807", "4611686018427387904")
+				if r.Chance(1, 8) {
+					ns = r.Pick("2147483647", "1099511627776") // may really be allocated: one per script (a second one is `bad-op`)
+				}
+			}
+			lines = append(lines, fmt.Sprintf("wscan %s %d %s %s", r.Pick("gte", "gt", "lte", "lt"), r.Range(-2, K+2), randFilter(r, K), ns))
 		}
 	}
 	lines = append(lines, "wchk", "wlen")
@@ -259,9 +271,14 @@ func genWrapper(r *rng.R, tier string) corr.Case {
 			}
 		}
 	}
-	if tier != "quick" && r.Chance(1, 10) {
+	if (tier == "quick" && r.Chance(1, 25)) || (tier != "quick" && r.Chance(1, 8)) {
+		// readers and writers on the locked wrapper at the same time (short in quick)
 		lo := r.Range(-5, K)
-		lines = append(lines, fmt.Sprintf("wconc %d %d", lo, lo+r.Range(20, 200)), "wchk", "wlen", "wscan gte -100 all 1000")
+		span := r.Range(20, 60)
+		if tier != "quick" {
+			span = r.Range(20, 300)
+		}
+		lines = append(lines, fmt.Sprintf("wconc %d %d", lo, lo+span), "wchk", "wlen", "wscan gte -100 all 1000")
 	}
 	return corr.Case{Tag: "wrapper-history", Lines: lines}
 }
@@ -312,14 +329,128 @@ func genRace(r *rng.R, tier string) corr.Case {
 	return corr.Case{Tag: "wrapper-race", Lines: lines}
 }
 
+// genWide: high degrees and hundreds of keys: nodes with 18+ items, heights the small classes never reach. Bulk fill,
+// then every kind of operation ON EXISTING KEYS (re-insert, get, delete) and scans at pivots near node boundaries.
+func genWide(r *rng.R, tier string) corr.Case {
+	d := r.PickInt(10, 10, 11, 12, 12, 16, 24, 32)
+	K := r.PickInt(60, 120, 200, 400)
+	if d >= 16 && K < 200 {
+		K = 200
+	}
+	lines := []string{"new " + strconv.Itoa(d)}
+	ks := make([]int, K)
+	for i := range ks {
+		ks[i] = i + 1
+	}
+	switch r.Intn(3) {
+	case 0:
+	case 1:
+		for i, j := 0, K-1; i < j; i, j = i+1, j-1 {
+			ks[i], ks[j] = ks[j], ks[i]
+		}
+	default:
+		for i := K - 1; i > 0; i-- {
+			j := r.Intn(i + 1)
+			ks[i], ks[j] = ks[j], ks[i]
+		}
+	}
+	ver := 0
+	for _, k := range ks {
+		ver++
+		lines = append(lines, fmt.Sprintf("ins 0 %d %d", k, ver))
+	}
+	lines = append(lines, "chk 0", "len 0", "min 0", "max 0")
+	withClone := r.Chance(1, 3)
+	if withClone {
+		lines = append(lines, "clone 0")
+	}
+	nops := r.Range(60, 160)
+	for i := 0; i < nops; i++ {
+		k := r.Range(1, K)
+		switch r.Intn(10) {
+		case 0, 1, 2:
+			ver++
+			lines = append(lines, fmt.Sprintf("ins 0 %d %d", k, ver), "len 0")
+		case 3, 4:
+			lines = append(lines, fmt.Sprintf("get 0 %d", k), fmt.Sprintf("has 0 %d", k))
+		case 5, 6:
+			lines = append(lines, fmt.Sprintf("del 0 %d", k), "chk 0")
+		case 7:
+			lines = append(lines, scanLine(0, r.Pick("ascgt", "desclt", "ascge", "descle"), k, 0, "ne:"+strconv.Itoa(k+r.Range(-3, 3))))
+		case 8:
+			lines = append(lines, scanLine(0, r.Pick("ascrange", "descrange"), k, k+r.Range(-25, 25), "all"))
+		default:
+			lines = append(lines, fmt.Sprintf("delmin 0"), fmt.Sprintf("delmax 0"))
+		}
+	}
+	lines = append(lines, "chk 0", "len 0", "scan 0 asc - - all", "owned 0", "cons 0")
+	if withClone {
+		lines = append(lines, "chk 1", "len 1", "scan 1 desc - - all", "owned 1", "cons 1")
+	}
+	return corr.Case{Tag: "wide-degree", Lines: lines}
+}
+
+// genPar: writers on a tree and its clones AT THE SAME TIME: one goroutine per handle (parbegin … parend). The handles
+// share cells and the free list; isolation says every handle still behaves like its own sorted set.
+func genPar(r *rng.R, tier string) corr.Case {
+	d := r.PickInt(2, 2, 3, 4)
+	K := r.PickInt(40, 80, 150)
+	lines := []string{"new " + strconv.Itoa(d)}
+	ver := 0
+	for k := 1; k <= K; k++ {
+		if r.Chance(3, 4) {
+			ver++
+			lines = append(lines, fmt.Sprintf("ins 0 %d %d", k, ver))
+		}
+	}
+	handles := r.Range(2, 4)
+	for h := 1; h < handles; h++ {
+		lines = append(lines, fmt.Sprintf("clone %d", r.Intn(h)))
+	}
+	rounds := 1
+	if tier != "quick" {
+		rounds = r.Range(1, 3)
+	}
+	for round := 0; round < rounds; round++ {
+		lines = append(lines, "parbegin")
+		n := r.Range(60, 200)
+		if tier != "quick" {
+			n = r.Range(150, 600)
+		}
+		for i := 0; i < n; i++ {
+			h := r.Intn(handles)
+			switch r.Intn(10) {
+			case 0, 1, 2, 3:
+				ver++
+				lines = append(lines, fmt.Sprintf("ins %d %d %d", h, r.Range(1, K+10), ver))
+			case 4, 5, 6, 7:
+				lines = append(lines, fmt.Sprintf("del %d %d", h, r.Range(1, K+10)))
+			case 8:
+				lines = append(lines, fmt.Sprintf("get %d %d", h, r.Range(1, K)))
+			default:
+				lines = append(lines, scanLine(h, r.Pick("ascgt", "desclt"), r.Range(0, K), 0, "lt:"+strconv.Itoa(r.Range(0, K))))
+			}
+		}
+		lines = append(lines, "parend")
+		for h := 0; h < handles; h++ {
+			lines = append(lines, fmt.Sprintf("chk %d", h), fmt.Sprintf("len %d", h), fmt.Sprintf("scan %d asc - - all", h), fmt.Sprintf("owned %d", h), fmt.Sprintf("cons %d", h))
+		}
+		if round+1 < rounds && handles < 6 {
+			lines = append(lines, fmt.Sprintf("clone %d", r.Intn(handles)))
+			handles++
+		}
+	}
+	return corr.Case{Tag: "clone-parallel", Lines: lines}
+}
+
 // genMalformed: a valid prefix with ill-formed lines mixed in (both sides must answer bad-op and keep their state).
 func genMalformed(r *rng.R) corr.Case {
 	lines := []string{r.Pick("new 2", "new 3", "neww")}
 	bad := []string{"", "foo", "ins", "ins 0", "ins 0 x 1", "ins 0 1 -1", "ins 9 1 1", "del 0", "del 0 1 2", "scan 0 ascgt - - all",
 		"scan 0 asc 1 - all", "scan 0 nope 1 - all", "scan 0 ascgt 1 - maybe", "scan 0 ascrange 1 - all", "get 0 1234567890", "clone 7",
 		"clear 0 2", "owned 9", "cons x", "wins 1", "wscan ge 1 all 1", "wscan gte 1 all x", "wscan gte 1 some 1", "wupd 1 2", "new 1", "new 65", "new x", "neww 2",
-		"len", "chk -1", "wget 00000000001", "wdel --1", "has 0 1 1", "min 0 0", "wconc 5 1", "wconc 1 1000", "wrace 0 del 1 / del 1", "wrace 1 del 1 del 1", "wrace 1 upd 1 / del 1", "wrace x del 1 / del 1"}
-	good := []string{"ins 0 1 1", "ins 0 2 2", "ins 0 3 3", "del 0 2", "scan 0 asc - - all", "len 0", "wins 1 1", "wins 2 2", "wdel 1", "wscan gte 0 all 5", "wlen", "get 0 1", "wget 2", "clone 0"}
+		"len", "chk -1", "wget 00000000001", "wdel --1", "has 0 1 1", "min 0 0", "wconc 5 1", "wconc 1 1000", "wrace 0 del 1 / del 1", "wrace 1 del 1 del 1", "wrace 1 upd 1 / del 1", "wrace x del 1 / del 1", "parend", "parbegin", "free 9", "wscan gte 1 all 99999999999999999999", "ins 0 9223372036854775808 1", "clone 0"}
+	good := []string{"parbegin", "parend", "ins 0 1 1", "ins 0 2 2", "ins 0 3 3", "del 0 2", "scan 0 asc - - all", "len 0", "wins 1 1", "wins 2 2", "wdel 1", "wscan gte 0 all 5", "wlen", "get 0 1", "wget 2", "clone 0"}
 	n := r.Range(6, 20)
 	for i := 0; i < n; i++ {
 		if r.Chance(1, 2) {
@@ -356,6 +487,10 @@ func fixedCases() []corr.Case {
 			}
 		}
 	}
+	for _, lim := range []string{"4398046511105", "9223372036854775806", "9223372036854775807"} {
+		w = append(w, "wscan gte 0 all "+lim, "wscan lt 3 all "+lim)
+	}
+	w = append(w, "wscan gt 0 all 2147483647", "wscan lte 3 all 2147483647")
 	w = append(w, "wupd 2 2 3", "wget 2", "wupd 2 9 4", "wget 2", "wget 9", "wins 5 5", "wupd 5 9 6", "wlen", "wscan gte 0 all 10", "wscan gt 9 all 10", "wscan lt 5 all 10", "wscan lte 9 none 3")
 	cs = append(cs, corr.Case{Tag: "fixed-boundary", Lines: w})
 	// full sweeps on dense trees: every degree, every scan, every pivot, three callbacks
@@ -392,6 +527,9 @@ func fixedCases() []corr.Case {
 		corr.Case{Tag: "fixed-regress", Lines: []string{"new 2", "ins 0 5 1", "scan 0 ascgt 5 - none", "scan 0 desclt 5 - none", "scan 0 descrange 5 4 none", "scan 0 descle 5 - all"}},
 		corr.Case{Tag: "fixed-regress", Lines: []string{"neww", "wins 3 31", "wins 4 30", "wins 5 24", "wins 7 23", "wscan lte 9 all 3", "wscan gt 2 mod3 1", "wscan lte 2 all 1000", "wupd 9 9 4", "wlen", "wscan gte 0 all 10"}},
 		corr.Case{Tag: "fixed-regress", Lines: []string{"new 2", "ins 0 1 1", "ins 0 2 2", "ins 0 3 3", "ins 0 4 4", "chk 0", "ins 0 5 5", "ins 0 6 6", "chk 0", "clone 0", "del 1 3", "chk 0", "chk 1", "scan 0 asc - - all", "del 0 1", "del 0 2", "chk 0", "len 0", "scan 1 asc - - all"}},
+		// "no limit" passed as the largest int (audit finding 1)
+		corr.Case{Tag: "fixed-limit", Lines: []string{"neww", "wins 1 1", "wins 2 2", "wins 3 3", "wins 4 4", "wins 5 5",
+			"wscan gte 0 all 9223372036854775807", "wscan lte 4 mod3 9223372036854775806", "wscan gt 2 all 4398046511105", "wscan lt 5 odd 2147483647", "wlen", "wchk"}},
 		// the interleaving of seeded change C03-4: Update parked in its lookup, Delete of the same key queued behind it
 		corr.Case{Tag: "fixed-race", Lines: []string{"neww", "wins 1 1", "wins 2 2", "wins 3 3", "wrace 1 upd 2 20 7 / del 2", "wchk", "wlen",
 			"wrace 1 upd 1 21 8 / upd 1 22 9", "wchk", "wrace 2 del 3 / ups 3 5 10", "wrace 1 get 5 / del 5", "wrace 9 upd 21 4 11 / ins 21 12", "wlen"}},
@@ -413,7 +551,25 @@ func spec() corr.Spec {
 			return 18000
 		},
 		Gen: func(r *rng.R, tier string, i int) corr.Case {
-			switch x := r.Intn(22); {
+			if only := os.Getenv("C03_ONLY"); only != "" { // development aid: one generator class
+				switch only {
+				case "wide":
+					return genWide(r, tier)
+				case "par":
+					return genPar(r, tier)
+				case "race":
+					return genRace(r, tier)
+				case "wrapper":
+					return genWrapper(r, tier)
+				case "direct":
+					return genDirect(r, tier, true)
+				}
+			}
+			switch x := r.Intn(25); {
+			case x == 24:
+				return genPar(r, tier)
+			case x >= 22:
+				return genWide(r, tier)
 			case x >= 20:
 				return genRace(r, tier)
 			case x < 6:
